@@ -60,8 +60,8 @@ def check(ctx):
     xc.need(verd, "both validators must accept and reject something", all(verd.get(k, 0) > 0 for k in ("seek:accept", "seek:reject", "stream:accept", "stream:reject")))
 
     ic = s["input_classes"]
-    xc.need(s, "flips, truncations, splices, inflated fields and random strings must all be enumerated",
-            all(ic.get(k, 0) > 0 for k in ("flip", "trunc", "splice", "set32", "set24", "random", "none")))
+    xc.need(s, "flips, truncations, splices, inflated fields, frames longer than declared and random strings must all be enumerated",
+            all(ic.get(k, 0) > 0 for k in ("flip", "trunc", "splice", "set32", "set24", "overlong", "random", "none")))
 
 
 def replay(ctx, path):
